@@ -338,11 +338,9 @@ class HashWalkEngine:
         res = self._execute(run)
         if run["config"].get("xproc") and res["violation"] is None \
                 and not run.get("_child"):
-            from .engine_curve import CurveEngineC09
-            v = CurveEngineC09.cross_process(self, run, res)
+            v = core.cross_process(self, run, res, "H3")
             if v is not None:
-                v["rule"] = "H3"
-                v["message"] = v["message"].replace("returned ratings",
+                v["message"] = v["message"].replace("returned values",
                                                     "hashes")
             res["violation"] = v
             res["probes"]["walk re-executed in a fresh interpreter under "
